@@ -220,12 +220,18 @@ let gen_schedule (cfg : sstate wconfig) (w0 : mworld) (rng : Random.State.t) (o 
               open store: the reducer / a channeled thread / an iterator consumer parked at recv
               simply stay parked until the model enables them) *)
            let probeable = List.filter (fun t -> label_of !w t <> "chan.recv") blocked in
+           (* the store's own threads waiting in a forwarding send (a full subscription channel)
+              are probed more often than chance would: they are few and short-lived *)
+           let own_blocked = List.filter (fun t -> t >= 100 && label_of !w t = "chan.send") probeable in
+           let want_own = own_blocked <> [] && o.probe_pct > 0 && Random.State.int rng 100 < 30 in
            if !committed = None && probeable <> [] && !probes < o.max_probes
-              && Random.State.int rng 100 < o.probe_pct then begin
-             let t = List.nth probeable (Random.State.int rng (List.length probeable)) in
+              && (want_own || Random.State.int rng 100 < o.probe_pct) then begin
+             let pool = if want_own then own_blocked else probeable in
+             let t = List.nth pool (Random.State.int rng (List.length pool)) in
              (* now and then a long probe of a blocking send: a wait that gives up after a while
                 (a blocking call replaced by one with a time-out) only shows after that while *)
-             let long = label_of !w t = "chan.send" && Random.State.int rng 100 < 12 in
+             let long = label_of !w t = "chan.send"
+                        && Random.State.int rng 100 < (if t >= 100 then 45 else 6) in
              emit (Printf.sprintf "P %d %s" t (if long then "blocked-long" else "blocked"));
              committed := Some t; incr probes
            end else begin
